@@ -135,7 +135,10 @@ def cc_flags(o, workdir, native=False):
           '-I' + os.path.join(HARNESS, 'include'), '-D' + GUARD]
     if o.ndebug:
         fl.append('-DNDEBUG')
-    return fl + list(o.defs) + list(o.ccflags)
+    cc = list(o.ccflags)
+    if native:      # the native replay runs the REAL rint.h asm: drop the displacement of rint.h by the x87 model
+        cc = [x for x in cc if x not in ('-Dsoxr_rint_included', '-include', 'x87_model.h')]
+    return fl + list(o.defs) + cc
 
 
 def src_path(s):
